@@ -76,6 +76,11 @@ CHECKS["C08"] = dict(
     note="Joins are covered in C09.",
     design="6/C08", technique="Coq proof (invariants over the ready/pending/deferred state machine, all input sequences) + exhaustive operation-order correspondence")
 
+CHECKS["C15"] = dict(
+    text="The cache goroutine as an actor serving one pending request at a time: for every concurrent execution (any number of callers, any interleaving of calls, services and returns) the replies equal the sequential specification run in service order (a List/Get returns the complete content at its service point: never a half-applied relist or refilter) and every operation is served strictly between its call and its return (so the service order is a linearization and one caller's reads never go backwards); reads modify nothing. Correspondence: the real cache goroutine in real time under Go's race detector, 1/4/16 readers against a writer moving through distinguishable complete states; every List checked for atomicity, window membership (extracted lin_ok), per-reader monotonicity; returned slices scribbled on.",
+    note="PARTIAL: data-race freedom is observed by the race detector, not proved; the single-owner structure is an assumption of the model.",
+    design="6/C15", technique="Coq proof (actor service order = linearization, by invariants over call/serve/return histories) + real-time race-detector runs checked by an extracted oracle")
+
 PENDING = {}
 
 def main():
